@@ -30,14 +30,14 @@ import (
 // ---- C19: TLS configuration and admission (engine "tls") -------------------------------------
 
 type certKit struct {
-	dir                 string
-	caPool              *x509.CertPool
-	caFileGood          string
-	caFileNoCA          string
-	caFileMissing       string
-	ownCert, ownKey     string // the proxy's own certificate (valid chain, DNS proxy.test)
-	creds               map[string]*tls.Certificate
-	ca1DER, ca2DER      []byte
+	dir             string
+	caPool          *x509.CertPool
+	caFileGood      string
+	caFileNoCA      string
+	caFileMissing   string
+	ownCert, ownKey string // the proxy's own certificate (valid chain, DNS proxy.test)
+	creds           map[string]*tls.Certificate
+	ca1DER, ca2DER  []byte
 }
 
 func pemWrite(t *testing.T, path, typ string, der []byte) {
